@@ -16,9 +16,9 @@ _CLI_HOOK = _os.path.exists("/repo/cli/verif_export.go")
 SPEC = {
     "pkg": "c17",
     "tests": [
-        {"name": "TestValid", "quick": 1600, "thorough": 96000, "shards_quick": 4, "shards_thorough": 16, "timeout": 1800},
-        {"name": "TestMutations", "quick": 4800, "thorough": 288000, "shards_quick": 6, "shards_thorough": 16, "timeout": 1800},
-        {"name": "TestPlaceholders", "quick": 2400, "thorough": 144000, "shards_quick": 4, "shards_thorough": 16, "timeout": 1800},
+        {"name": "TestValid", "quick": 1600, "thorough": 64000, "shards_quick": 4, "shards_thorough": 16, "timeout": 1800},
+        {"name": "TestMutations", "quick": 4800, "thorough": 192000, "shards_quick": 6, "shards_thorough": 16, "timeout": 1800},
+        {"name": "TestPlaceholders", "quick": 2400, "thorough": 96000, "shards_quick": 4, "shards_thorough": 16, "timeout": 1800},
     ] + ([{"name": "TestDiscardOverflowDefault", "quick": 400, "thorough": 16000, "shards_quick": 2, "shards_thorough": 16,
            "timeout": 1800}] if _CLI_HOOK else []),
     "rule": ("confgen reflects over the Go config struct of every component registered by core/import, phttp/import and grpc/import "
@@ -37,7 +37,7 @@ SPEC = {
              "(TestDiscardOverflowDefault, when the cli hook exists: generated YAML/JSON files with 1-3 pools read by the real CLI "
              "reader, non-trivial = a pool without the discard_overflow key); distinct = hash of the case."),
     "floors": {
-        "TestValid/given_depth_ge_2": 0.4, "TestValid/pools_gt_1": 0.1, "TestValid/list_composite": 0.2,
+        "TestValid/given_depth_ge_2": 0.4, "TestValid/pools_gt_1": 0.1, "TestValid/list_composite": 0.2, "TestValid/null_valued_key": 0.1,
         "TestMutations/kind:unknown_key": 0.3, "TestMutations/kind:wrong_type": 0.15, "TestMutations/kind:constraint": 0.05,
         "TestMutations/kind:missing": 0.05, "TestMutations/kind:bad_type": 0.05,
         "TestMutations/depth:0": 0.05, "TestMutations/depth:1": 0.15, "TestMutations/depth:2": 0.2, "TestMutations/depth:3": 0.01,
